@@ -18,10 +18,11 @@ VARIANTS = {
     "msan":    ("clang", "-fsanitize=memory -fsanitize-memory-track-origins -fno-omit-frame-pointer -g",
                 "-O1 -g -fsanitize=memory -fsanitize-memory-track-origins -fno-omit-frame-pointer", "-fsanitize=memory", "-DGMSIM_MSAN -DGMSIM_THREADS"),
 }
-WRAPS = ["send", "recv", "usleep", "time", "getentropy", "close", "socket", "connect", "gethostbyname"]
+WRAPS = ["send", "recv", "usleep", "time", "getentropy", "close", "socket", "connect", "gethostbyname",
+         "ctime", "asctime", "localtime", "gmtime", "strtok", "rand", "srand"]      # nonreent.c
 
 # harness sources; files listed in NOSAN are compiled without sanitizer flags in every variant
-SOURCES = ["core.c", "baton.c", "wraps.c", "net.c", "plan.c", "creds.c", "tlsnode.c", "mon.c",
+SOURCES = ["core.c", "baton.c", "wraps.c", "nonreent.c", "net.c", "plan.c", "creds.c", "tlsnode.c", "mon.c",
            "scn_common.c", "scn_honest.c", "main.c"]
 OPTIONAL = {
     "scn_mitm.c": "-DHAVE_SCN_MITM", "scn_auth.c": "-DHAVE_SCN_AUTH", "scn_entropy.c": "-DHAVE_SCN_ENTROPY",
@@ -98,6 +99,8 @@ def build_harness(variant, lib):
         objs.append(obj)
         nosan = s in NOSAN or (variant == "tsan-if" and s in NOSAN_TSAN)
         flags = "-O2 -g -fno-builtin" if nosan else hflags
+        if s == "nonreent.c" and variant == "tsan-if":
+            flags = "-O1 -g -fsanitize=thread"      # the one harness file TSan must see (models libc's static buffers)
         key = hashlib.sha1((flags + defs + cc).encode()).hexdigest()[:12]
         stamp = obj + ".flags"
         fresh = (os.path.exists(obj) and os.path.getmtime(obj) > os.path.getmtime(src)
